@@ -179,7 +179,7 @@ func runC18(c *Ctx) {
 		"(insert-guards) the insertion of a loaded lease into the table is dominated by State == Allocated, a valid address inside the home subnet and a non-empty client id. (reset) Config.New keeps the loaded tables only on the branch where err == nil, both subnets and the table are non-nil and the configuration is unchanged. " +
 		"(persist) handleRequest passes saveConfig on the path that acknowledges; saveConfig writes only allocated leases. Trusted: yaml.Unmarshal itself does not panic. Not decided: which bindings a truncated file yields."
 	r.Rule("nil-deref", "dereferences of pointers whose nil-ness depends on the lease file are proved non-nil", 4)
-	r.Rule("insert-guards", "a loaded lease enters the table only when allocated, inside the home subnet and with a client id", 3)
+	r.Rule("insert-guards", "a loaded lease enters the table only when allocated, inside the home subnet and with a client id; net2 only for captured MACs", 5)
 	r.Rule("reset", "New falls back to fresh tables unless the loaded state is complete and matches the configuration", 1)
 	r.Rule("persist", "acknowledged leases are saved; only allocated leases are written", 2)
 
@@ -292,6 +292,24 @@ func runC18(c *Ctx) {
 		if !found {
 			r.Add(core.Obligation{Rule: "insert-guards", Key: "insert-guards loadByteArray", Status: core.Violated, Detail: "no table insertion found in loadByteArray"})
 		}
+		// a restored lease is attached to the netfilter subnet only for a captured MAC: the request path
+		// (findOrCreate) selects net2 iff IsCaptured(mac) and replaces a lease whose subnet differs, so any other
+		// choice here makes the first renewal after a restart lose the binding
+		core.EachInstr(fn, func(i ssa.Instruction) {
+			st, ok := i.(*ssa.Store)
+			if !ok || !strings.HasSuffix(norm(st.Addr), "local(v).subnet") {
+				return
+			}
+			// which subnet? the value is a φ of the two loaded subnets; the default assignment (net1) is the first store
+			gs := guardsOf(i)
+			if !hasGuard(gs, `Contains\(`) && !hasGuard(gs, `IsCaptured\(`) {
+				return // the unconditional default (home subnet)
+			}
+			requireGuards(c, "insert-guards", "loadByteArray subnet = net2", i, []guardReq{
+				{"the MAC is captured", `^\(packet\.Session\)\.IsCaptured\(recv\.session,local\(v\)\.Addr\.MAC\)$`},
+				{"the address is inside net2", `^\(net/netip\.Prefix\)\.Contains\(.*SubnetConfig\.LAN,local\(v\)\.Addr\.IP\)$`},
+			})
+		})
 	}
 
 	// ---- reset ----
